@@ -611,6 +611,7 @@ fn gen_spec(rng: &mut Rng) -> SimSpec {
         page_cache: rng.chance(0.3),
         fs_seed: 0,
         capacity: None,
+        dio_align: None,
     };
     let nfiles = rng.range(1, 2) as usize;
     let mut next = 1u64;
